@@ -8,7 +8,10 @@
  * ppoll would have looked at signals (i.e. when no descriptor is ready).
  *
  * Operations (one line each; `k` names a watch slot chosen by the generator, unique per history):
- *   new
+ *   new                      a fresh process image with one toplevel instance, number 0 (the current one)
+ *   inst i                   make instance i (0..2) the current one; tickit_build it when it does not exist
+ *   use i                    make instance i the current one: every operation below acts on the current instance,
+ *                            callbacks act on the instance they are invoked for
  *   beh k n a1 a2 ...        actions run by watch k's callback on its n-th (0-based) FIRE invocation
  *   timer k ms flags         tickit_watch_timer_after_msec
  *   timer_at k sec usec flags
@@ -21,7 +24,7 @@
  *   tick | tickhang          tickit_tick(NOHANG|NOSETUP) | tickit_tick(NOSETUP)
  *   run                      tickit_run: iterations until a callback calls tickit_stop (action K); the harness's
  *                            ppoll stops the loop itself (`hstop`) when it would block for ever or after 50 waits
- *   destroy                  tickit_unref
+ *   destroy                  tickit_unref of the current instance
  *   end                      leak check
  * Actions: T,k,ms,flags  A,k,sec,usec,flags  L,k,flags  I,k,fd,cond,flags  S,k,sig,flags
  *          P,k,pid,flags  C,k  E,errno  R,sig  X,pid,status  K (tickit_stop)
@@ -71,8 +74,11 @@ enum { K_NONE, K_TIMER, K_LATER, K_IO, K_SIGNAL, K_PROCESS };
 static const int SIGS[] = { SIGHUP, SIGUSR1, SIGUSR2, SIGCHLD, SIGURG, SIGWINCH };
 #define NSIGS ((int)(sizeof SIGS / sizeof SIGS[0]))
 
-static Tickit *T;
-static int dead, leaked;
+#define NINST 3
+static Tickit *TT[NINST];    /* the toplevel instances; reachable from here, so LeakSanitizer does not report live ones */
+static int cur;
+#define T (TT[cur])
+static int leaked;
 
 static const uintptr_t MASK = (uintptr_t)0x5a5a5a5a5a5a5a5aULL; /* hide our copies of the handles from LeakSanitizer */
 static struct { uintptr_t h; int kind; int fires; int used; } W[MAXW];
@@ -233,7 +239,7 @@ static int cb(Tickit *t, TickitEventFlags flags, void *info, void *user)
 {
   int saved = errno;
   int k = (int)(intptr_t)user;
-  (void)t;
+  if(t != T) obs("wrong-instance ");   /* callbacks are only ever invoked for the instance operated on */
   obs("cb:%d:%d:", k, (int)flags);
   if(!info) obs("- ");
   else if(k >= 0 && k < MAXW && W[k].kind == K_IO) {
@@ -296,7 +302,7 @@ static void sig_trailer(void)
 
 static void engine_begin(void)
 {
-  T = NULL; dead = 0; leaked = 0; nbeh = 0; ninpoll = 0; quiet = 0; in_run = 0; run_polls = 0;
+  memset(TT, 0, sizeof TT); cur = 0; leaked = 0; nbeh = 0; ninpoll = 0; quiet = 0; in_run = 0; run_polls = 0;
   memset(W, 0, sizeof W);
   memset(PR, 0, sizeof PR);
   memset(ready_bits, 0, sizeof ready_bits);
@@ -319,18 +325,33 @@ static void __attribute__((noinline)) scrub_stack(void)
   for(size_t i = 0; i < sizeof buf; i++) buf[i] = 0;
 }
 
+static int build_current(void)
+{
+  T = tickit_build(&(struct TickitBuilder){
+    .term_builder = { .termtype = "xterm", .output_func = outfn },
+  });
+  if(!T) return 0;
+  /* set the terminal up now (tickit_run would do it on first use), silently: one iteration with nothing to do */
+  quiet = 1;
+  tickit_tick(T, TICKIT_RUN_NOHANG);
+  quiet = 0;
+  return 1;
+}
+
 static void engine_op(int argc, char **argv)
 {
   const char *op = argc ? argv[0] : "";
   if(strcmp(op, "new") == 0) {
-    T = tickit_build(&(struct TickitBuilder){
-      .term_builder = { .termtype = "xterm", .output_func = outfn },
-    });
-    if(!T) { obs("build-failed"); return; }
-    /* set the terminal up now (tickit_run would do it on first use), silently: one iteration with nothing to do */
-    quiet = 1;
-    tickit_tick(T, TICKIT_RUN_NOHANG);
-    quiet = 0;
+    cur = 0;
+    if(!build_current()) { obs("build-failed"); return; }
+    obs("ok ");
+    sig_trailer();
+    return;
+  }
+  if((strcmp(op, "inst") == 0 || strcmp(op, "use") == 0) && argc == 2 &&
+     argv[1][0] >= '0' && argv[1][0] < '0' + NINST && !argv[1][1]) {
+    cur = argv[1][0] - '0';
+    if(op[0] == 'i' && !T && !build_current()) { obs("build-failed"); return; }
     obs("ok ");
     sig_trailer();
     return;
@@ -342,7 +363,7 @@ static void engine_op(int argc, char **argv)
     obs("leaks=%d", leaked);
     return;
   }
-  if(dead || !T) { obs("dead"); return; }
+  if(!T) { obs("dead"); return; }
 
   long v[8] = { 0 };
   int okargs = 1;
@@ -378,7 +399,7 @@ static void engine_op(int argc, char **argv)
   else if(strcmp(op, "tick") == 0 && argc == 1)     { tickit_tick(T, TICKIT_RUN_NOHANG | TICKIT_RUN_NOSETUP); obs("ok "); }
   else if(strcmp(op, "tickhang") == 0 && argc == 1) { tickit_tick(T, TICKIT_RUN_NOSETUP); obs("ok "); }
   else if(strcmp(op, "run") == 0 && argc == 1) { in_run = 1; run_polls = 0; tickit_run(T); in_run = 0; obs("ok "); }
-  else if(strcmp(op, "destroy") == 0 && argc == 1)  { tickit_unref(T); T = NULL; dead = 1; obs("ok "); }
+  else if(strcmp(op, "destroy") == 0 && argc == 1)  { tickit_unref(T); T = NULL; obs("ok "); }
   else { obs("bad-op"); return; }
   sig_trailer();
 }
